@@ -131,7 +131,7 @@ pub fn probe_ops_case() -> BoxedStrategy<ProbeCase> {
     (program(6, 40, true), any::<u8>(), proptest::option::weighted(0.25, any::<u8>()), proptest::bool::weighted(0.2))
         .prop_map(|(prog, goal_var, hangup_after, mirror)| {
             // a serde / rebuild re-materialisation detaches the sender anyway: hang-ups only on plain programs
-            let plain = !prog.ops.iter().any(|o| matches!(o, crate::bddmodel::Op::Serde | crate::bddmodel::Op::Rebuild | crate::bddmodel::Op::AdfNodeList | crate::bddmodel::Op::AdfSerde | crate::bddmodel::Op::SerdeNoFix));
+            let plain = !prog.ops.iter().any(|o| matches!(o, crate::bddmodel::Op::Serde | crate::bddmodel::Op::Rebuild | crate::bddmodel::Op::AdfNodeList | crate::bddmodel::Op::AdfSerde | crate::bddmodel::Op::SerdeNoFix | crate::bddmodel::Op::RebuildStream | crate::bddmodel::Op::SerdePartialCache(_)));
             ProbeCase::Ops { prog, goal_var, hangup_after: if plain { hangup_after } else { None }, mirror: plain && mirror }
         })
         .boxed()
